@@ -17,7 +17,7 @@ func init() {
 			"R3 who-may-write: every store to Parser.errors is `append(<load of the same field>, …)`; no truncation, no restore from a copy. " +
 			"R4 speculative parsing does not record: between a Lexer.Clone() and the store that restores the clone into Parser.Lexer no callee can reach a store to Parser.errors. " +
 			"C03/R2 (recovery discipline) is shared. Decides: the control-flow contract between the error list, Bad nodes and the nil error. Does not decide: numeric range of error positions.",
-		Rules: []ruleFn{ruleC09R1, ruleC09R2, ruleC09R3, ruleC09R4, ruleC03R2, ruleC03R1, ruleC09R5, ruleC09R6},
+		Rules: []ruleFn{ruleC09R1, ruleC09R2, ruleC09R3, ruleC09R4, ruleC03R2, ruleC03R1, ruleC09R5, ruleC09R6, ruleC05R6},
 	})
 }
 
